@@ -28,16 +28,17 @@ type probe struct {
 }
 
 type c13Ctx struct {
-	enc   *HEnc
-	ci    int
-	next  uint32 // next unused odd stream id
-	half  uint32 // GET complete, handler parked: half-closed (remote)
-	open  uint32 // POST without END_STREAM: open
-	reset uint32 // reset by the client: closed
-	ntag  int
-	resp  map[string]*RespPlan
-	hold  bool
-	big   bool // the server was configured to advertise SETTINGS_HEADER_TABLE_SIZE = 8192
+	enc      *HEnc
+	ci       int
+	next     uint32 // next unused odd stream id
+	half     uint32 // GET complete, handler parked: half-closed (remote)
+	open     uint32 // POST without END_STREAM: open
+	reset    uint32 // reset by the client: closed
+	ntag     int
+	resp     map[string]*RespPlan
+	hold     bool
+	big      bool // the server was configured to advertise SETTINGS_HEADER_TABLE_SIZE = 8192
+	forceTSU bool
 }
 
 func (x *c13Ctx) tag() string {
@@ -71,7 +72,7 @@ var (
 	cFC = []uint32{ErrFlowControl}
 )
 
-const nProbeKinds = 49
+const nProbeKinds = 50
 
 // buildProbe constructs probe number k in the current connection state.
 func buildProbe(t *rapid.T, x *c13Ctx, k int) *probe {
@@ -109,7 +110,7 @@ func buildProbe(t *rapid.T, x *c13Ctx, k int) *probe {
 	case 11:
 		id := x.newID()
 		tag := x.tag()
-		if x.big && drawBool(t, "tablesizeupdate", 60) {
+		if x.big && (x.forceTSU || drawBool(t, "tablesizeupdate", 60)) {
 			// the block opens with a dynamic table size update to what the server advertised
 			// (8192 > the protocol default of 4096): legal once its SETTINGS has been received
 			if x.hold {
@@ -297,6 +298,15 @@ func buildProbe(t *rapid.T, x *c13Ctx, k int) *probe {
 		even := x.half + 1
 		fr := []Frame{DataFrame(even, []byte("x"), false, -1), RSTFrame(even, ErrCancel), WindowUpdateFrame(even, 5)}[k-46]
 		return &probe{Name: "frame on an idle even stream below the highest client stream: " + fr.String(), Kind: "conn", Codes: cP, Frames: []Frame{fr}}
+	case 49:
+		// a header block that carries a malformed field AND ends in the middle of a field:
+		// the block cannot be decoded to its end, the HPACK state of the connection is lost -
+		// a connection error (COMPRESSION_ERROR), not just a refusal of the one request
+		id := x.newID()
+		f := append(x.fields("trunc", "GET"), [2]string{"X-Upper", "1"})
+		block := append(x.enc.Block(f), 0x40, 0x0a, 'a', 'b')
+		return &probe{Name: "header block with a malformed field that is also truncated", Kind: "conn", Codes: []uint32{ErrCompression}, BadTag: "trunc",
+			Frames: []Frame{{Type: FHeaders, Stream: id, Flags: FlagEndHeaders | FlagEndStream, Payload: block}}}
 	}
 	panic("no such probe")
 }
@@ -455,6 +465,16 @@ func drawC13(t *rapid.T) *Case {
 		}
 		aux.Probes = append(aux.Probes, pr)
 		write(pr.Frames...)
+		if x.big && !graceful && k >= 22 && k <= 29 && drawBool(t, "tsuaftermalformed", 70) {
+			// right behind a request refused for a malformed field: a well-formed request whose
+			// block opens with a table size update - the decoder must be back at "start of a
+			// block" (the refused block was closed properly)
+			x.forceTSU = true
+			pr2 := buildProbe(t, x, 11)
+			x.forceTSU = false
+			aux.Probes = append(aux.Probes, pr2)
+			write(pr2.Frames...)
+		}
 	}
 	if drawBool(t, "connprobe", 50) && !(usedHalf || usedOpen) || drawBool(t, "connprobe2", 20) {
 		k := rapid.IntRange(32, nProbeKinds-1).Draw(t, "cprobe")
@@ -722,7 +742,7 @@ func c13TagStreams(aux *c13Aux, c *Case) map[string]uint32 {
 
 func init() {
 	register(&CheckDef{ID: "C13", Level: "exploration", Engine: "A", Draw: drawC13,
-		Rule: "a raw-frame HTTP/2 client first puts one stream into each state (half-closed (remote) with the handler parked in the back-end, open with a partial body, closed by a client RST_STREAM; idle ids above), so that the server-side state is determined by the client's frames alone, then sends 1-4 probes drawn from a catalogue of 46 (state, frame) situations - 14 legal ones that must never draw an error (unknown frame types and settings, PING, PRIORITY / WINDOW_UPDATE / RST_STREAM on closed streams, padded and empty DATA, trailers, CONTINUATION with padding and priority), 18 stream-level violations (frames on half-closed / reset streams, zero and overflowing WINDOW_UPDATE, self-dependency, malformed requests of 9 kinds, content-length mismatch, ...), 14 connection-level violations (even / reused ids, frames on idle streams, stream-0 / non-0 association, wrong lengths, out-of-range SETTINGS, PUSH_PROMISE, broken CONTINUATION sequences, undecodable header block, oversized frame), plus two special scenarios (first frame not SETTINGS; 251 parked streams against the advertised limit of 250) and, in 15% of the runs, a client GOAWAY(NO_ERROR) after the set-up, so that the probes meet a connection in graceful shutdown (a connection error then shows as an error GOAWAY or as the connection torn down under the parked request); then a closing request (must be served) or a request after the connection error (must not be). Frame delivery order relative to handlers is the controller's. Oracle (refh2sm, from RFC 7540/9113): reaction in the admissible set; handler started iff required; GOAWAY last-stream-id covers every request acted on; legal traffic draws no error. Non-trivial: the server answered at least one frame. Distinct: distinct controller action-label sequences."})
+		Rule: "a raw-frame HTTP/2 client first puts one stream into each state (half-closed (remote) with the handler parked in the back-end, open with a partial body, closed by a client RST_STREAM; idle ids above), so that the server-side state is determined by the client's frames alone, then sends 1-4 probes drawn from a catalogue of 47 (state, frame) situations - 14 legal ones that must never draw an error (unknown frame types and settings, PING, PRIORITY / WINDOW_UPDATE / RST_STREAM on closed streams, padded and empty DATA, trailers, CONTINUATION with padding and priority), 18 stream-level violations (frames on half-closed / reset streams, zero and overflowing WINDOW_UPDATE, self-dependency, malformed requests of 9 kinds, content-length mismatch, ...), 15 connection-level violations (even / reused ids, a header block both malformed and truncated, frames on idle streams, stream-0 / non-0 association, wrong lengths, out-of-range SETTINGS, PUSH_PROMISE, broken CONTINUATION sequences, undecodable header block, oversized frame), plus two special scenarios (first frame not SETTINGS; 251 parked streams against the advertised limit of 250) and, in 15% of the runs, a client GOAWAY(NO_ERROR) after the set-up, so that the probes meet a connection in graceful shutdown (a connection error then shows as an error GOAWAY or as the connection torn down under the parked request); then a closing request (must be served) or a request after the connection error (must not be). Frame delivery order relative to handlers is the controller's. Oracle (refh2sm, from RFC 7540/9113): reaction in the admissible set; handler started iff required; GOAWAY last-stream-id covers every request acted on; legal traffic draws no error. Non-trivial: the server answered at least one frame. Distinct: distinct controller action-label sequences."})
 }
 
 func laterExplains(ps []*probe, i int, connCode uint32) bool {
